@@ -7,6 +7,8 @@ responses hl.  The property classes wrap them into groups with their own member 
 from . import gen
 
 CRLF = b"\r\n"
+SIZES = sorted(set(v + d for v in (100, 128, 256, 512, 1000, 1024, 2048, 4096, 8192, 10000, 16384, 32768, 65536) for d in (-1, 0, 1)))
+COUNTS = sorted(set(v + d for v in (16, 32, 64, 100, 128, 256, 1000, 1024) for d in (-1, 0, 1)))
 
 
 def _cuts(s, extra=()):
@@ -64,6 +66,21 @@ def requests(rng, tier):
         add("Content-Length of %d zeros and a letter" % k, b"POST / HTTP/1.1\r\nContent-Length: " + b"0" * k + b"x\r\n\r\n0123456789abc", (1000, 1000, 10_000_000))
     for p in (b"HTTP/1.01", b"HTTP/01.1", b"HTTP/001.001", b"HTTP/+1.1", b"HTTP/1.+1", b"HTTP/1.1.1", b"HTTP/1.10", b"HTTP/1.1 ", b"HTTP/1.", b"HTTP/.1", b"HTTP/1,1", b"http/1.1", b"HTTP/1.1\t"):
         add("protocol %r" % p, b"GET / " + p + b"\r\nHost: a\r\n\r\n", (1000, 1000, 10_000_000))
+    # boundary sweep: every element kind at every size around a power of two / ten (a sample in the quick tier)
+    sweep = []
+    for L in SIZES:
+        sweep.append(("method of %d bytes" % L, b"M" * L + b" / HTTP/1.1\r\nHost: a\r\n\r\n", (L, L + 1)))
+        sweep.append(("request line of %d bytes" % L, b"GET /" + b"a" * max(0, L - 14) + b" HTTP/1.1\r\nHost: a\r\n\r\n", (L, L + 1)))
+        sweep.append(("header name of %d bytes" % L, b"GET / HTTP/1.1\r\n" + b"N" * L + b": v\r\n\r\n", (16 + L,)))
+        sweep.append(("header line of %d bytes" % L, b"POST / HTTP/1.1\r\nX: " + b"v" * max(0, L - 5) + b"\r\nContent-Length: 2\r\n\r\nab", (18 + L - 1, 18 + L)))
+        sweep.append(("body of %d bytes" % L, b"POST / HTTP/1.1\r\nContent-Length: %d\r\n\r\n" % L + b"b" * L + b"XY", (L, L + 40)))
+    for n in COUNTS:
+        hs = b"".join(b"H%d: v\r\n" % i for i in range(n))
+        sweep.append(("%d header fields" % n, b"GET / HTTP/1.1\r\n" + hs + b"\r\n", (16 + len(hs), 16 + len(hs) + 1)))
+        sweep.append(("one field repeated %d times" % n, b"GET / HTTP/1.1\r\n" + b"Accept: a\r\n" * n + b"\r\n", ()))
+        sweep.append(("a header folded over %d lines" % n, b"GET / HTTP/1.1\r\nX: a\r\n" + b" b\r\n" * n + b"\r\n", ()))
+    for label, s, extra in (sweep if tier != "quick" else rng.sample(sweep, 40)):
+        add(label, s, nolim, extra)
     for ex in (b"100-continue", b"100-Continue", b"x, 100-continue"):
         for d in (10, 200_000_000, 2 ** 40, 2 ** 63):
             for mx in (None, 10_000_000):
@@ -108,6 +125,22 @@ def responses(rng, tier):
             add("Connection: %s with Content-Length %r" % (conn.decode(), v), b"HTTP/1.1 200 OK\r\nConnection: " + conn + b"\r\nContent-Length: " + v + b"\r\n\r\nabcdefghijklmnop")
     for te in (b"x-chunked", b"notchunked", b"Chunked-Stream", b"gzip;mode=chunked-flush", b"x-unchunked", b"chunkedx", b"x-gzip, chunked", b"deflate, X-GZip, chunked", b"x-compress, chunked", b"X-Private-Coding, chunked"):
         add("Transfer-Encoding: %s" % te.decode(), b"HTTP/1.1 200 OK\r\nTransfer-Encoding: " + te + b"\r\n\r\n5\r\nhello\r\n0\r\n\r\nZ")
+    sweep = []
+    for L in SIZES:
+        sweep.append(("status line of %d bytes" % L, b"HTTP/1.1 200 " + b"r" * max(0, L - 13) + b"\r\nContent-Length: 2\r\n\r\nabZ", (L, L + 1)))
+        sweep.append(("header line of %d bytes" % L, b"HTTP/1.1 200 OK\r\nX: " + b"v" * max(0, L - 5) + b"\r\nContent-Length: 2\r\n\r\nabZ", (17 + L - 1, 17 + L)))
+        sweep.append(("chunk-size line of %d bytes" % L, chunked + b"5;" + b"e" * max(0, L - 4) + b"\r\nHello\r\n0\r\n\r\n", (len(chunked) + L, len(chunked) + L + 1)))
+        sweep.append(("trailer line of %d bytes" % L, chunked + b"2\r\nab\r\n0\r\nT: " + b"v" * max(0, L - 5) + b"\r\n\r\nZ", ()))
+        sweep.append(("chunk of %d bytes" % L, chunked + b"%x\r\n" % L + b"d" * L + b"\r\n0\r\n\r\nZ", (len(chunked) + L,)))
+        sweep.append(("fixed body of %d bytes" % L, b"HTTP/1.1 200 OK\r\nContent-Length: %d\r\n\r\n" % L + b"b" * L + b"XY", (L,)))
+    for n in COUNTS:
+        hs = b"".join(b"H%d: v\r\n" % i for i in range(n))
+        sweep.append(("%d header fields" % n, b"HTTP/1.1 200 OK\r\n" + hs + b"\r\n", (17 + len(hs), 17 + len(hs) + 1)))
+        sweep.append(("%d trailer fields" % n, chunked + b"0\r\n" + b"".join(b"T%d: v\r\n" % i for i in range(n)) + b"\r\n", ()))
+        sweep.append(("%d chunks" % n, chunked + b"1\r\nx\r\n" * n + b"0\r\n\r\n", ()))
+        sweep.append(("%d Transfer-Encoding fields" % n, b"HTTP/1.1 200 OK\r\n" + b"Transfer-Encoding: gzip\r\n" * n + b"Transfer-Encoding: chunked\r\n\r\n2\r\nab\r\n0\r\n\r\n", ()))
+    for label, s, extra in (sweep if tier != "quick" else rng.sample(sweep, 50)):
+        add(label, s, None, extra)
     for cl in (b"", b" ", b"\t"):
         add("empty Content-Length %r next to chunked" % cl, b"HTTP/1.1 200 OK\r\nContent-Length:" + cl + b"\r\nTransfer-Encoding: chunked\r\n\r\n5\r\nhello\r\n0\r\n\r\n")
     for tr in (b"X-A", b"X-A, X-B", b"X-C", b"x-b"):
